@@ -9,7 +9,8 @@ THOROUGH_CONFIGS = ['release']
 EXPLANATION = (
     'SEM (primary): DataView::using summarised over the three length classes x checksum match (cast reached exactly for long-enough frames whose crc32(body'
     ') equals the little-endian trailer, applied to the body only, no class panics); one request through the server interpreted (reply unchanged with OK; e'
-    'rror / unknown-service status sent as the serialisation of that status, non-OK). Structural fallback / remaining clauses: '
+    'rror / unknown-service status sent as the serialisation of that status, non-OK); one exchange of the client and the generic request decoder interpreted (the reply / the status is '
+    'decoded from THIS response through from_body / DataView::using; an admitted frame gives the view using returned, a refused frame the invalid-payload status). Structural fallback / remaining clauses: '
     'Decided clauses (datacake-rpc, default and simulation feature sets): F1 every unchecked rkyv cast in the frame layer is '
     'dominated by (a) the equal edge of CRC(body) == trailer and (b) the not-shorter edge of len(body) < size_of::<Archived<T>>(), '
     'both failure edges returning Err; F2 trailer writer/reader agreement (same hash function, same width, same endianness, reader '
